@@ -71,7 +71,7 @@ pub fn menu_p2(a: usize, b: usize) -> Menu {
     Menu {
         ask_slots: a,
         bid_slots: b,
-        prices: vec!["0.5", "1.5", "1.50"],
+        prices: vec!["0.5", "1", "1.5", "1.50"],
         sizes: vec![10, 20],
         match_sizes: vec![2, 5, 10, 15, 20],
         reject_sizes: vec![10],
@@ -284,7 +284,7 @@ pub fn plan(prop: &str, tier: Tier) -> Plan {
             };
             mk("B21/P1/F1/R0", Cfg::new(0, 2, ("0.25", "0.25"), "R0"), menu_p1(2, 1), &mut v);
             mk("B12/P1/F1/R0", Cfg::new(0, 2, ("0.25", "0.25"), "R0"), menu_p1(1, 2), &mut v);
-            mk("B11/P2/F0/R0", Cfg::new(1, 10, ("", ""), "R0"), Menu { prices: vec!["0.5", "1", "1.5", "1.50"], ..menu_p2(1, 1) }, &mut v);
+            mk("B11/P2/F0/R0", Cfg::new(1, 10, ("", ""), "R0"), menu_p2(1, 1), &mut v);
             mk("B11/P0/F3/R0", Cfg::new(0, 1, ("0.5", "0.5"), "R0"), menu_p0(1, 1, vec!["1", "2"]), &mut v);
             mk("B11/P0/F3/R0/rrr", with_markers(Cfg::new(0, 1, ("0.5", "0.5"), "R0"), "rrr"), menu_p0(1, 1, vec!["1", "2"]), &mut v);
             mk("B11/multi-denom", multi(Cfg::new(0, 2, ("0.25", "0.25"), "R0")), menu_multi(1, 1), &mut v);
@@ -320,6 +320,17 @@ pub fn plan(prop: &str, tier: Tier) -> Plan {
                 l.extend(extra);
                 let p = probes::minus_l(probes::senders(&cfg, &l), &l);
                 v.push(Scenario { name: format!("B11/P1/F1/{rv}/roles"), cfg, l, p, seed: vec![], menu });
+            }
+            {
+                // nobody is a configured approver: nobody can approve
+                let mut cfg = Cfg::new(0, 2, ("0.25", "0.25"), "R0");
+                cfg.approvers = vec![];
+                let mut menu = menu_p1(1, 1);
+                menu.prices = vec!["2"];
+                menu.two_approvers = true;
+                let l = alphabet_l(&cfg, &menu);
+                let p = probes::minus_l(probes::senders(&cfg, &l), &l);
+                v.push(Scenario { name: "B11/P1/F1/R0/no-approvers".into(), cfg, l, p, seed: vec![], menu });
             }
             if th {
                 let cfg = Cfg::new(0, 2, ("0.25", "0.25"), "R0");
@@ -399,6 +410,11 @@ pub fn plan(prop: &str, tier: Tier) -> Plan {
             mk("B11/P1/F1/R1/run", with_markers(Cfg::new(0, 2, ("0.25", "0.25"), "R1"), "run"), menu_p1(1, 1), &mut v);
             mk("B11/P1/F1/R0/urn", with_markers(Cfg::new(0, 2, ("0.25", "0.25"), "R0"), "urn"), menu_p1(1, 1), &mut v);
             mk("B11/P0/F3/R0", Cfg::new(0, 1, ("0.5", "0.5"), "R0"), menu_p0(1, 1, vec!["1", "2"]), &mut v);
+            {
+                let mut cfg = Cfg::new(0, 2, ("0.25", "0.25"), "R0");
+                cfg.approvers = vec![];
+                mk("B11/P1/F1/R0/no-approvers", cfg, menu_p1(1, 1), &mut v);
+            }
             if th {
                 mk("B21/P1/F1/R1", Cfg::new(0, 2, ("0.25", "0.25"), "R1"), menu_p1(2, 1), &mut v);
                 mk("B21/P1big/F1/R0", Cfg::new(0, 2, ("0.25", "0.25"), "R0"), menu_p1_big(2, 1), &mut v);
@@ -410,7 +426,8 @@ pub fn plan(prop: &str, tier: Tier) -> Plan {
         "C09" => {
             let mut v = vec![];
             let mk = |name: &str, cfg: Cfg, menu: Menu, v: &mut Vec<Scenario>| {
-                v.push(scen(name, cfg, menu, vec![]));
+                let p = probes::fee_creates(&cfg, &menu);
+                v.push(scen(name, cfg, menu, p));
             };
             let plain = |m: Menu| Menu { ask_bases: vec!["base"], ..m };
             mk("B12/P1/F1", Cfg::new(0, 2, ("0.25", "0.25"), "R0"), plain(menu_p1(1, 2)), &mut v);
